@@ -122,8 +122,19 @@ Definition para_is_ref (l : list inline) : bool :=
   | _ => false
   end.
 
-(* to_graph_inlines: constructor for constructor (see Ast.v) *)
-Definition to_ginlines (dir : string) (l : list inline) : list inline := l.
+(* to_graph_inlines: constructor for constructor (see Ast.v); the url of a note link loses
+   its `.md` suffix (the writer adds the configured extension back) *)
+Fixpoint to_ginline (i : inline) : inline :=
+  match i with
+  | Emph l => Emph (map to_ginline l)
+  | Strong l => Strong (map to_ginline l)
+  | Strike l => Strike (map to_ginline l)
+  | Link url title lt l =>
+      Link (if is_ref_url url then trim_end_matches MD url else url) title lt (map to_ginline l)
+  | Image url title l => Image url title (map to_ginline l)
+  | _ => i
+  end.
+Definition to_ginlines (dir : string) (l : list inline) : list inline := map to_ginline l.
 
 Section Sections.
   Variable dir : string.  (* key.parent() *)
@@ -209,13 +220,13 @@ Section Sections.
             let st := set_insert st true in
             let id := b_cur st in
             do st <- fold_left (fun acc it => do s <- acc; process_section f it s) items (Ok st);
-            Ok (set_id st id)
+            Ok (set_insert (set_id st id) false)
         | DOList items =>
             do st <- add_node st KOList;
             let st := set_insert st true in
             let id := b_cur st in
             do st <- fold_left (fun acc it => do s <- acc; process_section f it s) items (Ok st);
-            Ok (set_id st id)
+            Ok (set_insert (set_id st id) false)
         | DQuote lr bs =>
             do st <- add_node st KQuote;
             let st := set_lines_range st lr in
